@@ -585,6 +585,9 @@ def fixed_shapes():
         UE('u8', 0, [], [FX(V(U8, 'u8'), 'u8')]),
         UE('u8', 0, [], [U32]),
         inner,
+        # enums WITHOUT a unit variant whose smallest variant is not a multiple of the alignment (MIN_SIZE rounding)
+        UE('u8', 0, [U8], [U32, U8]), UE('u8', 0, [U8, U8, U8], [U32]), UE('u16', 0, [U8, V(U8, 'u8')], [U32, U16]),
+        US(U16, UE('u8', 0, [U8], [U32, U8])), FX(UE('u8', 0, [U8], [U32, U8]), 'u16'),
         # the #[default] unit variant declared last and the only smallest one; wide tags
         UE('u8', 2, [U32, V(U8, 'u16')], [U32], []), US(U8, UE('u8', 1, [U16, V(U16, 'u16')], [])),
         UE('u16', 2, [U32, V(U8, 'u16')], [U32], []), UE('u32', 1, [U8, FS('u8')], []), UE('u16', 0, [], [U8, V(U8, 'u8')]),
@@ -655,7 +658,8 @@ def random_unsized(rng, depth):
         else:
             vs.append(tuple([random_sized(rng, depth - 1) for _ in range(n - 1)] + [random_any(rng, depth - 1)]))
     k = rng.randrange(nv)
-    vs[k] = ()
+    if rng.random() < 0.7 or len(vs[k]) == 0:
+        vs[k] = ()        # (otherwise: no unit variant, hence no #[default]: has_default is False for such an enum)
     if all(len(v) == 0 for v in vs):
         vs.append((random_any(rng, depth - 1),))
     return ('enum', False, rng.choice(TAG_TYPES), k, tuple(vs), rng.choice('nt'))
